@@ -45,16 +45,18 @@ class Interp:
         self.an = tree_or_analysis if isinstance(tree_or_analysis, spec.Analysis) else spec.Analysis(tree_or_analysis)
         self.iters = 0
         self.events = set()
+        self.trace = []     # (class simple name, mode at entry) of every (nested) body, in call order
 
     # ================================================================== serialise
-    def serialize(self, body, obj, lex=False, sanitize=False):
+    def serialize(self, body, obj, lex=False, sanitize=False, label=None):
         w = RefWriter()
         w.sanitize = sanitize
-        self.ser_body(body, obj, w, lex)
+        self.ser_body(body, obj, w, lex, label)
         return bytes(w.data)
 
-    def ser_body(self, body, obj, w, lex):
+    def ser_body(self, body, obj, w, lex, label=None):
         entry = w.sanitize
+        self.trace.append((label, bool(entry)))
         st = {"missing": False, "start": len(w.data), "scope": body, "obj": obj}
         try:
             self._ser_instrs(body, w, lex, st)
@@ -107,7 +109,7 @@ class Interp:
             if not isinstance(v, dict):
                 raise Invalid("struct value missing")
             self.events.add("struct")
-            self.ser_body(r["decl"]["body"], v, w, False)
+            self.ser_body(r["decl"]["body"], v, w, False, r["name"])
         else:
             self._write_basic(w, r, v, length, padded)
 
@@ -222,7 +224,7 @@ class Interp:
                 if not isinstance(cd, dict) or cd.get("__case__") != spec.case_class_name(ins, case):
                     raise Invalid("wrong case data")
                 self.events.add("case_body")
-                self.ser_body(case["body"], cd, w, lex)
+                self.ser_body(case["body"], cd, w, lex, spec.case_class_name(ins, case))
             elif t == "chunked":
                 if not lex:
                     w.sanitize = True
@@ -253,21 +255,22 @@ class Interp:
         return default
 
     # ================================================================== deserialise
-    def deserialize(self, body, data, lex=False, chunked=False, reader=None):
+    def deserialize(self, body, data, lex=False, chunked=False, reader=None, label=None):
         """-> ("ok", obj, reader) | ("ValueError"|"RuntimeError", None, reader)"""
         r = reader or RefReader(data)
         r.chunked = chunked
         self.iters = 0
         try:
-            obj = self.de_body(body, r, lex)
+            obj = self.de_body(body, r, lex, label)
             return ("ok", obj, r)
         except ValueError:
             return ("ValueError", None, r)
         except RuntimeError:
             return ("RuntimeError", None, r)
 
-    def de_body(self, body, r, lex):
+    def de_body(self, body, r, lex, label=None):
         entry = r.chunked
+        self.trace.append((label, bool(entry)))
         st = {"start": r.pos, "scope": body, "obj": {}, "vars": {}}
         try:
             self._de_instrs(body, r, lex, st)
@@ -300,7 +303,7 @@ class Interp:
     def _read_value(self, r, typ, length=None, padded=False):
         res = self.an.resolve(typ)
         if res["kind"] == "struct":
-            return self.de_body(res["decl"]["body"], r, False)
+            return self.de_body(res["decl"]["body"], r, False, res["name"])
         return self._read_basic(r, res, length, padded)
 
     def _len_expr(self, st, ln):
@@ -355,7 +358,7 @@ class Interp:
                 self.events.add("switch")
                 cd = None
                 if case is not None and case["body"]:
-                    cd = self.de_body(case["body"], r, lex)
+                    cd = self.de_body(case["body"], r, lex, spec.case_class_name(ins, case))
                     cd["__case__"] = spec.case_class_name(ins, case)
                 st["obj"][ins["field"] + "_data"] = cd
             elif t == "chunked":
